@@ -59,7 +59,32 @@ def main():
         if rc != 0:
             res["build_log"] = out[-2000:]
         t0 = time.time()
+        # timing-based tests of the repository (tickers, retransmission) are flaky when the machine is
+        # loaded by other checks: a failing package is retried (alone, twice) before it counts
         rc, out = sh("go test -count=1 -timeout 25m %s" % " ".join(pkgs), wt)
+        for _ in range(2):
+            if rc == 0:
+                break
+            failed = re.findall(r'^FAIL[ \t]+(\S+)[ \t]', out, re.M)
+            if not failed:
+                break
+            res.setdefault("retried", []).append(failed)
+            rc, out = sh("go test -count=1 -p 1 -timeout 25m %s" % " ".join(failed), wt)
+        if rc != 0:
+            # still failing: is it the patch, or a test that fails on the unchanged tree as well under
+            # the current machine load?  Run exactly the failing tests on the unpatched tree.
+            names = sorted(set(re.findall(r'^--- FAIL: (\w+)', out, re.M)))
+            failed = re.findall(r'^FAIL[ \t]+(\S+)[ \t]', out, re.M)
+            if names and failed:
+                sh("git apply -R --whitespace=nowarn %s" % os.path.join(d, "patch.diff"), wt)
+                rc0, out0 = sh("go test -count=1 -p 1 -timeout 25m -run '^(%s)$' %s" % ("|".join(names), " ".join(failed)), wt)
+                names0 = sorted(set(re.findall(r'^--- FAIL: (\w+)', out0, re.M)))
+                sh("git apply --whitespace=nowarn %s" % os.path.join(d, "patch.diff"), wt)
+                res["failing_with_patch"] = names
+                res["failing_on_clean_tree_too"] = names0
+                if names0 == names:
+                    rc = 0
+                    res["note"] = "the only failing existing tests fail on the unchanged tree as well (load-dependent), not counted against the patch"
         res["steps"]["existing_tests_pass_with_patch"] = rc == 0
         res["tests_s"] = round(time.time() - t0)
         if rc != 0:
